@@ -611,6 +611,21 @@ func (fe *FuncEnc) unop(x *ssa.UnOp, st *State) {
 		}
 		fe.loadTop = ""
 		fe.setVal(x, fe.load(st, a))
+		// assumed facts about package-level values of dependencies (verif-globalfact)
+		if g, isG := x.X.(*ssa.Global); isG && g.Pkg != nil {
+			for _, sf := range fe.eng.globalFacts[g.Pkg.Pkg.Path()+"."+g.Name()] {
+				if e, err := parseCExpr(sf + "(gv)"); err == nil {
+					env := &Env{fe: fe, st: st, old: st, vars: map[string]EV{"gv": {T: fe.vals[x], Typ: x.Type()}}, inOld: true}
+					if fe.fn.Pkg != nil {
+						env.pkg = fe.fn.Pkg.Pkg
+					}
+					fe.assume(st, fe.evalBool(env, e, "verif-globalfact "+g.Name()))
+					if fe.usedAssumed != nil {
+						fe.usedAssumed["assumed fact: "+sf+"("+g.Pkg.Pkg.Path()+"."+g.Name()+")"] = true
+					}
+				}
+			}
+		}
 		if lock, _, ok := fe.guardOf(a); ok {
 			fe.guardedVals[fe.vals[x]] = lock
 		}
